@@ -26,9 +26,9 @@ func VerifOpenToken(g *TokenGenerator, tok []byte) ([]byte, error) {
 	return g.tokenProtector.DecodeToken(tok)
 }
 
-func VerifTokenAddr(t *Token) []byte { return t.encodedRemoteAddr }
+func VerifTksTokenAddr(t *Token) []byte { return t.encodedRemoteAddr }
 
-func VerifEncodeRemoteAddr(a net.Addr) []byte { return encodeRemoteAddr(a) }
+func VerifTksEncodeRemoteAddr(a net.Addr) []byte { return encodeRemoteAddr(a) }
 
 const (
 	VerifTokenNonceSize        = tokenNonceSize
